@@ -1,9 +1,160 @@
-// VU-key (C12): crates/s3s/src/path.rs :: check_key, verbatim.
+// VU-key (C12): crates/s3s/src/path.rs — check_key, parse_path_style, parse_virtual_hosted_style, S3Path constructors,
+// verbatim; check_bucket_name is NOT under contract (uninterpreted predicate).
 #![allow(dead_code, unused)]
+#![feature(pattern)]
+#![verifier::allow(undeclared_external_trait)]
 use vstd::prelude::*;
 use vstd::string::StringSliceAdditionalSpecFns;
+use std::str::pattern::Pattern;
 verus! {
+
 // @canary-decls
+
+// ---- environment: str methods over Pattern (trusted; the generic result is uninterpreted, its meaning for `char` is an axiom)
+pub uninterp spec fn sp_strip_prefix<P>(s: Seq<char>, p: P) -> Option<Seq<char>>;
+pub uninterp spec fn sp_split_once<P>(s: Seq<char>, p: P) -> Option<(Seq<char>, Seq<char>)>;
+
+#[verifier::allow(undeclared_external_trait)]
+pub assume_specification<'a, P: Pattern>[ str::strip_prefix::<P> ](s: &'a str, p: P) -> (r: Option<&'a str>)
+    ensures
+        r matches Some(t) ==> sp_strip_prefix(s@, p) == Some(t@),
+        r is None ==> sp_strip_prefix(s@, p) is None;
+
+#[verifier::allow(undeclared_external_trait)]
+pub assume_specification<'a, P: Pattern>[ str::split_once::<P> ](s: &'a str, p: P) -> (r: Option<(&'a str, &'a str)>)
+    ensures
+        r matches Some(t) ==> sp_split_once(s@, p) == Some((t.0@, t.1@)),
+        r is None ==> sp_split_once(s@, p) is None;
+
+/// index of the first occurrence of c in s, or s.len()
+pub open spec fn first_index(s: Seq<char>, c: char) -> int
+    decreases s.len()
+{
+    if s.len() == 0 { 0 } else if s[0] == c { 0 } else { 1 + first_index(s.skip(1), c) }
+}
+
+#[verifier::external_body]
+pub proof fn axiom_strip_prefix_char(s: Seq<char>, c: char)
+    ensures sp_strip_prefix(s, c) == (if s.len() > 0 && s[0] == c { Some(s.skip(1)) } else { None::<Seq<char>> })
+{}
+#[verifier::external_body]
+pub proof fn axiom_split_once_char(s: Seq<char>, c: char)
+    ensures sp_split_once(s, c) == (if first_index(s, c) < s.len() { Some((s.take(first_index(s, c)), s.skip(first_index(s, c) + 1))) } else { None::<(Seq<char>, Seq<char>)> })
+{}
+
+/// a `&str` value is its content: strings with the same characters are equal values. Needed because Verus compares a
+/// scrutinee with a string-literal *pattern* (`Some((x, ""))`) as values, not as character sequences (trusted).
+#[verifier::external_body]
+pub proof fn axiom_str_view_injective(a: &str, b: &str)
+    ensures a@ == b@ ==> a == b
+{}
+
+/// `impl From<&str> for Box<str>` (reached through `.into()`): same characters
+pub assume_specification<'a>[ <Box<str> as From<&'a str>>::from ](s: &str) -> (r: Box<str>)
+    ensures r@ == s@;
+
+//@@ extract T_S3Path file=crates/s3s/src/path.rs item="enum S3Path" rewrites=attr
+//@@ extract T_ParseS3PathError file=crates/s3s/src/path.rs item="enum ParseS3PathError" rewrites=attr
+
+/// bucket naming rules: NOT under contract here
+pub uninterp spec fn bucket_ok(name: Seq<char>) -> bool;
+#[verifier::external_body]
+pub fn check_bucket_name(name: &str) -> (r: bool)
+    ensures r == bucket_ok(name@)
+{ unimplemented!() }
+
+/// UTF-8 byte length of a string, as a function of its characters (strings with the same characters have the same bytes)
+pub uninterp spec fn utf8_len(s: Seq<char>) -> nat;
+#[verifier::external_body]
+pub proof fn axiom_utf8_len(s: &str)
+    ensures s.spec_bytes().len() == utf8_len(s@), s.spec_bytes().len() <= usize::MAX
+{}
+
+// ---- what a request target denotes (written from the property: bucket in the path or in the Host header, key verbatim)
+pub enum Denoted { Root, Bucket(Seq<char>), Object(Seq<char>, Seq<char>), BadPath, BadBucket, KeyTooLong }
+
+pub open spec fn denoted_by_object(bucket: Seq<char>, key: Seq<char>) -> Denoted {
+    if !bucket_ok(bucket) { Denoted::BadBucket }
+    else if key.len() == 0 { Denoted::Bucket(bucket) }
+    else if utf8_len(key) > 1024 { Denoted::KeyTooLong }
+    else { Denoted::Object(bucket, key) }
+}
+/// path-style: `/` is the root, `/bucket` and `/bucket/` the bucket, `/bucket/key…` the object (key = everything after the second slash)
+pub open spec fn denoted_path_style(u: Seq<char>) -> Denoted {
+    if !(u.len() > 0 && u[0] == '/') { Denoted::BadPath }
+    else if u.len() == 1 { Denoted::Root }
+    else {
+        let path = u.skip(1);
+        let i = first_index(path, '/');
+        if i >= path.len() { if bucket_ok(path) { Denoted::Bucket(path) } else { Denoted::BadBucket } }
+        else { denoted_by_object(path.take(i), path.skip(i + 1)) }
+    }
+}
+/// virtual-hosted-style: the bucket comes from the Host header, the key is the path without its leading slash
+pub open spec fn denoted_virtual_hosted(bucket: Seq<char>, u: Seq<char>) -> Denoted {
+    if !(u.len() > 0 && u[0] == '/') { Denoted::BadPath }
+    else { denoted_by_object(bucket, u.skip(1)) }
+}
+pub open spec fn view_result(r: Result<S3Path, ParseS3PathError>) -> Denoted {
+    match r {
+        Ok(S3Path::Root) => Denoted::Root,
+        Ok(S3Path::Bucket { bucket }) => Denoted::Bucket(bucket@),
+        Ok(S3Path::Object { bucket, key }) => Denoted::Object(bucket@, key@),
+        Err(ParseS3PathError::InvalidPath) => Denoted::BadPath,
+        Err(ParseS3PathError::InvalidBucketName) => Denoted::BadBucket,
+        Err(ParseS3PathError::KeyTooLong) => Denoted::KeyTooLong,
+    }
+}
+
+impl S3Path {
+//@@ extract S3Path_root file=crates/s3s/src/path.rs item="impl S3Path/fn root" rewrites=attr,ret
+//@@ extract S3Path_bucket file=crates/s3s/src/path.rs item="impl S3Path/fn bucket" rewrites=attr,ret
+//@@ extract S3Path_object file=crates/s3s/src/path.rs item="impl S3Path/fn object" rewrites=attr,ret
+}
+
 //@@ extract check_key file=crates/s3s/src/path.rs item="fn check_key" rewrites=attr,ret
+//@@ extract parse_path_style file=crates/s3s/src/path.rs item="fn parse_path_style" rewrites=attr,ret
+//@@ extract parse_virtual_hosted_style file=crates/s3s/src/path.rs item="fn parse_virtual_hosted_style" rewrites=attr,ret
+
+/// both addressing styles resolve to the same bucket and key
+pub proof fn lemma_styles_agree(bucket: Seq<char>, key: Seq<char>)
+    requires
+        bucket_ok(bucket),
+        // true of every name the bucket rules admit ([a-z0-9.-] only); check_bucket_name is not under contract, so assumed
+        !bucket.contains('/'),
+        bucket.len() > 0,
+    ensures
+        //# C01,C12:both_styles_resolve_to_the_same_bucket_and_key
+        denoted_path_style(seq!['/'] + bucket + seq!['/'] + key) == denoted_virtual_hosted(bucket, seq!['/'] + key),
+{
+    let u = seq!['/'] + bucket + seq!['/'] + key;
+    let path = u.skip(1);
+    assert(path =~= bucket + (seq!['/'] + key));
+    lemma_first_index_after_prefix(bucket, seq!['/'] + key, '/');
+    assert(first_index(path, '/') == bucket.len());
+    assert(path.take(bucket.len() as int) =~= bucket);
+    assert(path.skip(bucket.len() as int + 1) =~= key);
+    assert((seq!['/'] + key).skip(1) =~= key);
+}
+
+pub proof fn lemma_first_index_after_prefix(a: Seq<char>, b: Seq<char>, c: char)
+    requires !a.contains(c), b.len() > 0, b[0] == c
+    ensures first_index(a + b, c) == a.len()
+    decreases a.len()
+{
+    if a.len() == 0 {
+        assert(a + b =~= b);
+    } else {
+        assert((a + b)[0] == a[0]);
+        assert(a.contains(a[0]));
+        assert((a + b).skip(1) =~= a.skip(1) + b);
+        assert forall|x: char| a.skip(1).contains(x) implies a.contains(x) by {
+            let i = choose|i: int| 0 <= i < a.skip(1).len() && a.skip(1)[i] == x;
+            assert(a[i + 1] == x);
+        }
+        lemma_first_index_after_prefix(a.skip(1), b, c);
+    }
+}
+
 } // verus!
 fn main() {}
